@@ -827,7 +827,18 @@ impl CfgGen {
             v
         };
         let up = mk(r, self.small_budgets);
-        let down = mk(r, self.small_budgets);
+        let mut down = mk(r, self.small_budgets);
+        // asymmetric configurations: the same channel id may be of one kind client->server and of another
+        // server->client (each endpoint must send with its own list and receive with the peer's)
+        if down.len() >= 2 && r.chance(1, 4) {
+            let a = r.usize_below(down.len());
+            let b = r.usize_below(down.len());
+            if a != b {
+                let (ia, ib) = (down[a].id, down[b].id);
+                down[a].id = ib;
+                down[b].id = ia;
+            }
+        }
         let bpt_choices: Vec<u64> = [1200u64, 1201, 2500, 6000, 60_000, 1_000_000]
             .iter()
             .copied()
